@@ -627,6 +627,11 @@ func c19(c *eng.Ctx) {
 			}
 		}
 	}
+	// tiles holding a complete 64x64 code-block of 16-bit noise (contributions beyond 8 KiB)
+	for _, lv := range []int{0, 1} {
+		jobs = append(jobs, j2kCase{W: 128, H: 64, C: 1, P: 16, Levels: lv, CBW: 64, CBH: 64, Layers: 1, TileW: 64, TileH: 64, K: 1},
+			j2kCase{W: 128, H: 128, C: 1, P: 16, Levels: lv, CBW: 64, CBH: 64, Layers: 1, TileW: 128, TileH: 64, K: 1})
+	}
 	if c.Thorough() {
 		for _, sz := range [][2]int{{600, 7}, {7, 600}} {
 			for _, t := range [][2]int{{75, 7}, {7, 75}, {64, 4}, {4, 64}, {599, 3}, {3, 599}, {101, 5}} {
